@@ -33,6 +33,10 @@ CONSTANTS Ops, NVals, NKeys, MaxLen, MaxT, H, Terms,
           KeyMode,   \* "all": every key table; "some" / "some3": two / three representative ones
           ElemMode,  \* "none": no element mapper; "some": none + rotate (+ a raising one); "all": every table
           Faults,
+          RxG,       \* re-entrant feedback: for g \in RxG, g > 0, a subscriber of the g-th emitted group reacts to that
+                     \* group's EXPIRY (its duration observable notified) by synchronously pushing one more element
+                     \* (value rx.v) into the source: an element that arrives right after the expiry, at the same
+                     \* instant, causally after it.  {0} = no feedback.  (timed durations only)
           Disposes   \* TRUE: the subscriber may dispose the result and every group subscription half a tick after
                      \*       instant dsp \in 0..MaxT (C03 dimension)
 
@@ -54,10 +58,11 @@ LastT(s)  == IF Len(s) = 0 THEN 1 ELSE s[Len(s)].t
 TermsOf(s) == {[k |-> kk, t |-> tt] : kk \in Terms \ {"U"}, tt \in LastT(s)..MaxT}
               \cup (IF "U" \in Terms THEN {[k |-> "U", t |-> INF]} ELSE {})
 
-VARIABLES op, par, src, term, dsp, \* the scenario (dsp = INF: the subscriber never disposes)
+VARIABLES op, par, src, term, dsp, rx, \* the scenario (dsp = INF: the subscriber never disposes; rx.g = 0: no feedback)
           abandon,                 \* free choice of the model (not part of the scenario)
-          i, now, step, S, arr
-vars == <<op, par, src, term, dsp, abandon, i, now, step, S, arr>>
+          i, now, step, S, arr,
+          seen                     \* ghost: the elements that reached the operator, in arrival order (source + feedback)
+vars == <<op, par, src, term, dsp, rx, abandon, i, now, step, S, arr, seen>>
 
 (* ---- user functions ------------------------------------------------------------------------ *)
 IdTab   == [v \in Vals |-> v]
@@ -89,12 +94,14 @@ ParamsOf(o) ==
 
 IsPart == op \in {"partition", "partition_indexed"}
 DurOf(g) == IF op = "group_by_until" THEN par.durs[((g - 1) % Len(par.durs)) + 1] ELSE DNever
-\* key / emitted value of the j-th source element (1-based), per the property
-KeyOf(j) == LET v == src[j].v IN
-            CASE op = "partition" -> par.p[v]
-              [] op = "partition_indexed" -> PIdx(par.p, v, j - 1)
-              [] OTHER -> par.kf[v]
-ValOf(j) == IF IsPart THEN src[j].v ELSE par.ef[src[j].v]
+\* key / emitted value of an element with value v arriving as the (idx+1)-th element, per the property
+KeyV(v, idx) == CASE op = "partition" -> par.p[v]
+                  [] op = "partition_indexed" -> PIdx(par.p, v, idx)
+                  [] OTHER -> par.kf[v]
+ValV(v) == IF IsPart THEN v ELSE par.ef[v]
+\* ... of the j-th element that arrived (1-based)
+KeyOf(j) == KeyV(seen[j].v, j - 1)
+ValOf(j) == ValV(seen[j].v)
 
 (* ---- observation helpers ---------------------------------------------------------------------- *)
 Ev(t, k, v, e, j) == [t |-> t, k |-> k, v |-> v, e |-> e, j |-> j]
@@ -137,7 +144,7 @@ InitS == IF IsPart THEN Open(Open(S0, 1, 0, 0), 0, 0, 0) ELSE S0
 (* ---- the transducer: the SET of allowed successor states ------------------------------------- *)
 \* j-th source element (value v) arrives at instant t; n = number of this event
 OnNext(Z, j, v, t, n) ==
-  LET k == KeyOf(j)  e == ValOf(j) IN
+  LET k == KeyV(v, j - 1)  e == ValV(v) IN
   IF IsPart THEN
      (IF k = 2 THEN {Fail(Z, "fn", t, 3 * n, j)}
       ELSE {Put(Z, IF k = 1 THEN 1 ELSE 2, Ev(t, "N", e, "", j))})
@@ -172,8 +179,10 @@ Init == /\ op \in Ops
         /\ term \in TermsOf(src)
         /\ par \in ParamsOf(op)
         /\ dsp \in (IF Disposes THEN 0..MaxT ELSE {}) \cup {INF}
+        /\ rx \in (IF op = "group_by_until" /\ par.dn = 0 THEN {[g |-> g, v |-> IF g = 0 THEN 0 ELSE v] : g \in RxG, v \in Vals}
+                   ELSE {[g |-> 0, v |-> 0]})
         /\ abandon \in (IF HasFault THEN BOOLEAN ELSE {FALSE})
-        /\ i = 1 /\ now = 0 /\ step = 0 /\ arr = <<>>
+        /\ i = 1 /\ now = 0 /\ step = 0 /\ arr = <<>> /\ seen = <<>>
         /\ S = InitS
 
 SrcDue == IF i <= Len(src) THEN src[i].t ELSE IF i = Len(src) + 1 THEN term.t ELSE INF
@@ -184,21 +193,32 @@ CanFire == ~Final /\ MinDue <= dsp
 Dispose == /\ ~Final /\ dsp < MinDue
            /\ S' = [S EXCEPT !.done = TRUE, !.disp = TRUE, !.timers = {}]
            /\ step' = step + 1
-           /\ UNCHANGED <<op, par, src, term, dsp, abandon, i, now, arr>>
+           /\ UNCHANGED <<op, par, src, term, dsp, rx, abandon, i, now, arr, seen>>
 
 FireSrc == /\ CanFire /\ SrcDue = MinDue
            /\ now' = MinDue /\ step' = step + 1 /\ i' = i + 1
            /\ IF i <= Len(src)
-              THEN /\ S' \in OnNext(S, i, src[i].v, MinDue, step + 1)
+              THEN /\ S' \in OnNext(S, Len(seen) + 1, src[i].v, MinDue, step + 1)
                    /\ arr' = Append(arr, 3 * (step + 1) + 1)
+                   /\ seen' = Append(seen, [t |-> MinDue, v |-> src[i].v])
               ELSE /\ S' = EndAll(S, term.k, IF term.k = "E" THEN "src" ELSE "", "src", MinDue, 3 * (step + 1), 0)
-                   /\ arr' = arr
-           /\ UNCHANGED <<op, par, src, term, dsp, abandon>>
+                   /\ arr' = arr /\ seen' = seen
+           /\ UNCHANGED <<op, par, src, term, dsp, rx, abandon>>
 
 FireTimer == /\ CanFire
-             /\ \E x \in S.timers : x.due = MinDue /\ S' = OnTimer(S, x, MinDue, step + 1)
-             /\ now' = MinDue /\ step' = step + 1
-             /\ UNCHANGED <<op, par, src, term, dsp, abandon, i, arr>>
+             /\ \E x \in S.timers :
+                  /\ x.due = MinDue
+                  /\ LET Z1 == OnTimer(S, x, MinDue, step + 1) IN
+                     IF rx.g = x.id /\ ~Z1.done
+                     THEN \* the expired group's subscriber feeds one more element back, inside its completion callback:
+                          \* it arrives right after the expiry (its own event number), before anything else
+                          /\ S' \in OnNext(Z1, Len(seen) + 1, rx.v, MinDue, step + 2)
+                          /\ arr' = Append(arr, 3 * (step + 2) + 1)
+                          /\ seen' = Append(seen, [t |-> MinDue, v |-> rx.v])
+                          /\ step' = step + 2
+                     ELSE S' = Z1 /\ arr' = arr /\ seen' = seen /\ step' = step + 1
+             /\ now' = MinDue
+             /\ UNCHANGED <<op, par, src, term, dsp, rx, abandon, i>>
 
 Next == FireSrc \/ FireTimer \/ Dispose
 Spec == Init /\ [][Next]_vars
@@ -224,7 +244,7 @@ RouteOK == /\ \A j \in 1..Len(arr) :
                        /\ S.grps[g].key = KeyOf(j)
                        /\ S.grps[g].os < arr[j] /\ (S.grps[g].cs = 0 \/ arr[j] < S.grps[g].cs)
                        /\ \E q \in 1..Len(S.grps[g].out) : LET x == S.grps[g].out[q] IN
-                              x.k = "N" /\ x.j = j /\ x.v = ValOf(j) /\ x.t = src[j].t
+                              x.k = "N" /\ x.j = j /\ x.v = ValOf(j) /\ x.t = seen[j].t
            /\ \A g \in 1..NG : LET o == S.grps[g].out IN
                 \A q \in 1..(Len(o) - 1) : o[q + 1].k = "N" => o[q].j < o[q + 1].j
 
@@ -260,7 +280,7 @@ SilentOK == /\ S.disp => (dsp # INF /\ now <= dsp)
 
 (* ---- export ------------------------------------------------------------------------------------- *)
 Export == Final => PrintT(ToJson(
-   [scn |-> [op |-> op, par |-> par, src |-> src, term |-> term, dsp |-> dsp],
+   [scn |-> [op |-> op, par |-> par, src |-> src, term |-> term, dsp |-> dsp, rx |-> rx],
     obs |-> [grps |-> [g \in 1..NG |-> [key |-> S.grps[g].key, open |-> S.grps[g].open, out |-> S.grps[g].out]],
              outer |-> S.outer, disp |-> S.disp]]))
 ================================================================================
